@@ -323,52 +323,56 @@ fn take_registry(mut gen: TypeGen) -> Result<Registry, String> {
     }
 }
 
-/// The registries the translator prints, by app name.  The last one (`protocol`) is every capability's
-/// `Operation::register_types` on its own, with no app around it.
-pub fn registries() -> Vec<(&'static str, Result<Registry, String>)> {
-    let mut out = vec![];
-    {
-        let mut gen = TypeGen::new();
-        // nested enums have to be registered by hand, as in a real shared_types/build.rs
-        let r = (|| -> Result<(), String> {
+/// One fully registered `TypeGen` per test app (what a shared_types/build.rs would do), by app name.  The last one
+/// (`protocol`) is every capability's `Operation::register_types` on its own, with no app around it.
+pub fn typegens() -> Vec<(&'static str, Result<TypeGen, String>)> {
+    use crux_core::capability::Operation;
+    let mk = |f: &dyn Fn(&mut TypeGen) -> Result<(), String>| -> Result<TypeGen, String> { let mut g = TypeGen::new(); f(&mut g)?; Ok(g) };
+    vec![
+        ("kvapp", mk(&|gen| {
+            // nested enums have to be registered by hand, as in a real shared_types/build.rs
             gen.register_type::<kvapp::Api>().map_err(|e| e.to_string())?;
             gen.register_type::<kvapp::Outcome>().map_err(|e| e.to_string())?;
             gen.register_type::<kvapp::StatusOutcome>().map_err(|e| e.to_string())?;
             gen.register_type::<kvapp::KeysOutcome>().map_err(|e| e.to_string())?;
             gen.register_type::<kvapp::Entry>().map_err(|e| e.to_string())?;
             gen.register_app::<kvapp::App>().map_err(|e| e.to_string())
-        })().and_then(|_| take_registry(gen));
-        out.push(("kvapp", r));
-    }
-    {
-        let mut gen = TypeGen::new();
-        let r = (|| -> Result<(), String> {
+        })),
+        ("zoo", mk(&|gen| {
             gen.register_type::<zoo::Kind>().map_err(|e| e.to_string())?;
             gen.register_app::<zoo::App>().map_err(|e| e.to_string())
-        })().and_then(|_| take_registry(gen));
-        out.push(("zoo", r));
-    }
-    {
-        let mut gen = TypeGen::new();
-        let r = (|| -> Result<(), String> {
+        })),
+        ("malapp", mk(&|gen| {
             gen.register_type::<malapp::Answer>().map_err(|e| e.to_string())?;
             gen.register_type::<malapp::Line>().map_err(|e| e.to_string())?;
             gen.register_app::<malapp::App>().map_err(|e| e.to_string())
-        })().and_then(|_| take_registry(gen));
-        out.push(("malapp", r));
-    }
-    {
-        use crux_core::capability::Operation;
-        let mut gen = TypeGen::new();
-        let r = (|| -> Result<(), String> {
-            crux_core::render::RenderOperation::register_types(&mut gen).map_err(|e| e.to_string())?;
-            crux_http::protocol::HttpRequest::register_types(&mut gen).map_err(|e| e.to_string())?;
-            crux_kv::KeyValueOperation::register_types(&mut gen).map_err(|e| e.to_string())?;
-            crux_time::TimeRequest::register_types(&mut gen).map_err(|e| e.to_string())?;
-            crux_platform::PlatformRequest::register_types(&mut gen).map_err(|e| e.to_string())?;
+        })),
+        ("protocol", mk(&|gen| {
+            crux_core::render::RenderOperation::register_types(gen).map_err(|e| e.to_string())?;
+            crux_http::protocol::HttpRequest::register_types(gen).map_err(|e| e.to_string())?;
+            crux_kv::KeyValueOperation::register_types(gen).map_err(|e| e.to_string())?;
+            crux_time::TimeRequest::register_types(gen).map_err(|e| e.to_string())?;
+            crux_platform::PlatformRequest::register_types(gen).map_err(|e| e.to_string())?;
             Ok(())
-        })().and_then(|_| take_registry(gen));
-        out.push(("protocol", r));
+        })),
+    ]
+}
+/// malapp registered the way a careless build.rs would: the nested enums (Answer, Line) are only reachable through
+/// the app's types, so tracing sees their first variant only.  Both the tracer and TypeGen's generators must refuse.
+pub fn incomplete_typegen() -> Result<TypeGen, String> {
+    let mut gen = TypeGen::new();
+    gen.register_app::<malapp::App>().map_err(|e| e.to_string())?;
+    Ok(gen)
+}
+/// The registry TypeGen's own generators work from: run a real generator (java: pure Rust, no external tool) and
+/// read the registry it left in `state`.
+pub fn generated_registry(mut gen: TypeGen, out_dir: &str) -> Result<Registry, String> {
+    gen.java("com.crux.verif.types", out_dir).map_err(|e| e.to_string())?;
+    match std::mem::replace(&mut gen.state, State::Generating(Registry::new())) {
+        State::Generating(r) => Ok(r),
+        State::Registering(..) => Err("generator returned Ok but left no registry".into()),
     }
-    out
+}
+pub fn registries() -> Vec<(&'static str, Result<Registry, String>)> {
+    typegens().into_iter().map(|(n, g)| (n, g.and_then(take_registry))).collect()
 }
